@@ -87,7 +87,15 @@ def volume3d_quadrature(d):
 # ---------------------------------------------------------------------------------------
 
 def gen_amps(rng, n, eps):
-    return np.array([rng.choice([0.0, 1.0, 1.0]) * rng.uniform(-1, 1) for _ in range(n)]) * eps
+    a = np.array([rng.choice([0.0, 1.0, 1.0]) * rng.uniform(-1, 1) for _ in range(n)]) * eps
+    r = rng.random()
+    if r < 0.25 and n >= 3:
+        # sparse vectors: a whole block of low modes is zero (no translation modes, a pure higher deformation)
+        a[: rng.choice([k for k in (2, 3, 8, 15) if k < n])] = 0.0
+    elif r < 0.35 and n >= 2:
+        j = rng.randrange(n)
+        a = np.where(np.arange(n) == j, a if a[j] != 0 else eps * 0.7, 0.0)
+    return a
 
 
 def run_cases(ck: Check, n2d: int, n3d: int):
@@ -225,6 +233,18 @@ def run_cases(ck: Check, n2d: int, n3d: int):
                 ck.fail(f"{cls_name}: triangulation vertices do not lie on the interface", {**sig, "check": "triangulation_on_interface"}, case)
         if len(ck.samples) < 4:
             ck.sample(case)
+    # exact 3-D volume with sizeable amplitudes (third-order terms matter): against an independent product quadrature
+    for N, eps in ((3, 0.25), (8, 0.2), (15, 0.12), (24, 0.1))[: max(2, n3d // 20)]:
+        R = 10 ** rng.uniform(0, 1)
+        amps = np.array([rng.choice([-1, 1]) * rng.uniform(0.5, 1.0) * eps for _ in range(N)])
+        pos = np.array([rng.uniform(-5, 5) for _ in range(3)])
+        d = D.PerturbedDroplet3D(pos, R, None, amps)
+        case = {"class": "PerturbedDroplet3D", "R": R, "amplitudes": amps.tolist()}
+        ck.case(("volume3d", R, amps.tobytes()))
+        ck.count("volume3d_sizeable_amplitudes")
+        vq = volume3d_quadrature(d)
+        if not rel_close(float(d.volume), vq, 2e-7):
+            ck.fail(f"3-D volume {d.volume} but the integral over the body is {vq} (relative deviation {float(d.volume) / vq - 1:.3g})", {"class": "PerturbedDroplet3D", "check": "volume3d"}, case)
     # zero amplitudes: everything reduces to the sphere
     for cls_name, dim in (("PerturbedDroplet2D", 2), ("PerturbedDroplet3D", 3), ("PerturbedDroplet3DAxisSym", 3)):
         R = rng.uniform(0.5, 4)
